@@ -42,6 +42,8 @@ class History:
             n = rng.choice([5, 30, 300, 700] if big else [5, 20])
             if self.mode == "grow":
                 n = rng.choice([400, 600, 700])
+            if self.mode == "wide":
+                n = rng.choice([300, 2100, 2500, 3000])      # rows of more than half a page: an UPDATE record (old + new image) exceeds a page
             v = pad(n, k)
             self.pending_keys = (t, "add", k)
             return ("INSERT INTO %s(k,g,v) VALUES (%d, %d, '%s');" % (t, k, k % 7, v),
@@ -52,6 +54,8 @@ class History:
             return ("UPDATE %s SET g = %d WHERE k = %d;" % (t, rng.randrange(100, 200), k), None, "update-inplace")
         if r < 0.80:
             n = rng.choice([40, 400, 900] if big else [10, 25])
+            if self.mode == "wide":
+                n = rng.choice([2050, 2300, 2600, 3100])
             self.pending_keys = None
             return ("UPDATE %s SET v = '%s' WHERE k = %d;" % (t, pad(n, 1000 + rng.randrange(1000)), k), None, "update-grow")
         self.pending_keys = (t, "del", k)
@@ -81,13 +85,20 @@ class History:
         if not db.open().startswith("ok"):
             self.fail = "database does not start"; return
         for t in TABLES:
+            if self.mode == "wide":
+                # (no index on the string column: its values are longer than an index entry may be)
+                if not db.cmd("mktable %s k:i:s,g:i:n,v:s:n" % t).startswith("ok"):
+                    self.fail = "mktable failed"; return
+                continue
             if not db.sql("CREATE TABLE %s(k int, g int, v varchar(255));" % t).startswith("ok"):
                 self.fail = "CREATE TABLE failed"; return
         db.cmd("mark SETUP-DONE")
         label = 0
         # a long-running transaction that stays open while other work commits (its records reach the
         # durable log through other transactions' commits and through evictions: recovery must undo it)
-        bg_at = rng.randrange(0, max(1, nunits - 2)) if rng.random() < 0.7 else None
+        bg_at = rng.randrange(0, max(1, nunits - 2)) if rng.random() < (0.7 if self.mode != "wide" else 1.0) else None
+        if self.mode == "wide" and bg_at is not None:
+            bg_at = min(bg_at, 2)
         if self.mode in ("grow", "abortgrow"):
             bg_at = None        # tables grow page by page and checkpoints (possible only with no transaction open) are frequent
         bg_open, bg_ops = False, 0
@@ -99,8 +110,12 @@ class History:
                 # own rows only: keys >= 100000 are never touched by anybody else
                 k = 100000 + self.nextk; self.nextk += 1
                 n = rng.choice([5, 300, 700] if self.mode != "small" else [5, 20])
+                if self.mode == "wide":
+                    n = rng.choice([2100, 2400, 2900])
                 tt = rng.choice(TABLES)
                 what = rng.random()
+                if self.mode == "wide" and getattr(self, "bgkeys", None):
+                    what = 0.6 + what * 0.4 if what < 0.7 else what        # mostly updates of its own wide rows: wide UPDATE records of a loser
                 if what < 0.6 or not getattr(self, "bgkeys", None):
                     db.cmd("tsql bg INSERT INTO %s(k,g,v) VALUES (%d, 1, '%s');" % (tt, k, pad(n, k)))
                     self.bgkeys = getattr(self, "bgkeys", []) + [(tt, k)]
